@@ -8,6 +8,7 @@ matching relation (which chiplet column carries which operand) is taken from the
    U32AND / U32XOR   <-> last row of a bitwise cycle with a = s1, b = s0, z = s0', selector = operation
    MLOADW / MSTOREW  <-> memory row with ctx, addr = s0, clk, word v_i = s'_{3-i}, read / write selector
    MLOAD / MSTORE    <-> memory row with word (s0', h2, h1, h0)
+   MSTREAM / PIPE    <-> two memory rows (addr = s12, s12 + 1) with the words left in s4'..s7' and s0'..s3'
    SPAN / JOIN / SPLIT / LOOP / CALL / DYN <-> hasher row starting the block's hash (rate = h0..h7, capacity = (0, opcode | 0, 0, 0))
    END               <-> hasher row returning the block hash (digest = h0..h3)
    HPERM             <-> the hasher row starting the permutation and the row returning the state (state j = stack 11-j)
@@ -62,7 +63,7 @@ class Columns2(Columns):
         return F(self.it.ctx.var(f"x{row}_{col}"))
 
     def column(self, col):
-        hi = max(self.base, self.op_row) + 2
+        hi = max([self.base, self.op_row] + list(self.extra)) + 2
         named = {self.op_row, self.op_row + 1, self.base, self.base + 1}
         return _LazyColumn(self, col, hi)
 
@@ -81,9 +82,14 @@ class _LazyColumn(list):
 
 
 def run_pair(interp, op_consts, chip_row, chip_consts, op_row=0, next_consts=None, extra=None, second_row=None):
-    req = [n for n in interp.fns if n.endswith("::get_requests_at") and "chiplets/aux_trace/mod.rs:7" in n]
-    rsp = [n for n in interp.fns if n.endswith("::get_responses_at") and "chiplets/aux_trace/mod.rs:7" in n]
-    assert len(req) == 1 and len(rsp) == 1, (req, rsp)
+    def bus_fn(suffix):
+        # two AuxColumnBuilder impls live in the file: BusColumnBuilder is the first one
+        c_ = [n for n in interp.fns if n.endswith(suffix) and "chiplets/aux_trace/mod.rs:" in n]
+        c_.sort(key=lambda n: int(re.search(r"mod\.rs:(\d+):", n).group(1)))
+        if len(c_) != 2:
+            raise Unsupported(f"{suffix}: expected the impls of BusColumnBuilder and ChipletsVTableColBuilder, found {c_}")
+        return c_[:1]
+    req, rsp = bus_fn("::get_requests_at"), bus_fn("::get_responses_at")
 
     def make_run(it):
         it.begin_run(None)
@@ -159,6 +165,17 @@ def main():
     cases.append(dict(op="End", chip_row=23, op_row=40, cur_consts={DEC: 17}, chip={ch: 0, HS: 0, HS + 1: 0, HS + 2: 0},
                       what="hasher row returning the block hash (HOUT)",
                       match=lambda cur, nxt, q: [(q(HST + 4 + i), cur(DH + i)) for i in range(4)] + [(q(HIDX), Lin({}, 0))]))
+    # MSTREAM / PIPE <-> two memory rows (addr = s12 and s12 + 1; the word at addr ends up in s4'..s7', the word at
+    # addr + 1 in s0'..s3', element v_i at position 7 - i resp. 3 - i): read rows for MSTREAM, write rows for PIPE
+    def two_words(cur, nxt, q):
+        return [(q(c["MEMORY_CTX"]), cur(CTX)), (q(c["MEMORY_ADDR"]), cur(ST + 12)), (q(c["MEMORY_CLK"]), cur(CLK))] + [(q(MV + i), nxt(ST + 7 - i)) for i in range(4)]
+
+    def two_words2(cur, nxt, u):
+        return [(u(c["MEMORY_CTX"]), cur(CTX)), (u(c["MEMORY_ADDR"]), cur(ST + 12) + 1), (u(c["MEMORY_CLK"]), cur(CLK))] + [(u(MV + i), nxt(ST + 3 - i)) for i in range(4)]
+    for opname, is_read in (("MStream", 1), ("Pipe", 0)):
+        sel = {ch: 1, ch + 1: 1, ch + 2: 0, ch + 3: is_read}
+        cases.append(dict(op=opname, chip_row=5, chip=sel, second_row=9, extra={9: ("u", sel), 10: ("w", {})},
+                          what=f"two memory chiplet rows ({'read' if is_read else 'write'})", match=two_words, match2=two_words2))
     # HPERM <-> two hasher rows: the row that starts the permutation (BP, address 17 = chiplet row 16) holding the
     # input state and the row that returns the whole state (SOUT, chiplet row 23); hasher state element j <-> stack item 11 - j
     cases.append(dict(op="HPerm", chip_row=16, op_row=40, cur_consts={HP: 17}, chip={ch: 0, HS: 1, HS + 1: 0, HS + 2: 0, HIDX: 0},
@@ -226,8 +243,8 @@ def main():
         samples=V.obligations[:8], obligations=len(V.obligations), discharged=c_.get("discharged", 0), queries=cov["queries"],
         functions_encoded=["processor chiplets::aux_trace::BusColumnBuilder::{get_requests_at, get_responses_at}, build_bitwise_request, build_mem_request_word, build_mem_request_element, "
                            "compute_memory_request, build_bitwise_chiplet_responses, build_memory_chiplet_responses, get_op_label (MIR)", "miden-air MainTrace accessors (MIR)"],
-        bounds="one operation row and one chiplet row, all cells and challenges symbolic; operations U32AND, U32XOR, MLOADW, MSTOREW, MLOAD, MSTORE; SPAN, JOIN, SPLIT, LOOP, CALL, DYN, RESPAN, END and HPERM (two messages) against the hasher (concrete hasher address 17, decoder row 40)",
-        not_covered="multiset equality over whole traces; MPVERIFY / MRUPDATE, SYSCALL (kernel ROM), MSTREAM/PIPE/RCOMBBASE messages; decoder virtual tables; range-checker LogUp; the request side of the range checker (seed c03a)",
+        bounds="one operation row and one chiplet row, all cells and challenges symbolic; operations U32AND, U32XOR, MLOADW, MSTOREW, MLOAD, MSTORE, MSTREAM, PIPE (two messages); SPAN, JOIN, SPLIT, LOOP, CALL, DYN, RESPAN, END and HPERM (two messages) against the hasher (concrete hasher address 17, decoder row 40)",
+        not_covered="multiset equality over whole traces; MPVERIFY / MRUPDATE, SYSCALL (kernel ROM), RCOMBBASE messages; decoder virtual tables; range-checker LogUp; the request side of the range checker (seed c03a)",
         sources_fingerprint=repo_fingerprint(["processor/src/chiplets/aux_trace", "air/src/trace/main_trace.rs"]),
         evaluations=len(V.obligations), distinct_nontrivial=c_.get("discharged", 0), rule="one obligation per (operation, chiplet row kind, path)",
     )
@@ -243,6 +260,8 @@ BUS_PROGRAMS = {
     "Span": "begin push.1 drop end", "End": "begin push.1 if.true push.2 drop else push.3 drop end end",
     "Join": "begin push.1 if.true push.2 drop else push.3 drop end push.4 drop end", "Split": "begin push.1 if.true push.2 drop else push.3 drop end end",
     "HPerm": "begin push.1.2.3.4 hperm dropw dropw dropw end",
+    "MStream": "begin push.1.2.3.4 mem_storew.0 dropw padw padw padw mem_stream dropw dropw dropw end",
+    "Pipe": ("begin padw padw padw adv_pipe dropw dropw dropw end", [1, 2, 3, 4, 5, 6, 7, 8]),
     "Loop": "begin push.1 while.true push.0 end end", "Call": "proc.f push.1 drop end begin call.f end", "Dyn": "begin push.1 drop end",
 }
 # further programs per operation: reads of addresses never written before (first access), several batches
@@ -256,7 +275,9 @@ def confirm(V, name, path, op):
     """native: a program using the operation; the chiplets bus column must return to 1 at the end of the real trace"""
     import masmsym
     progs = [BUS_PROGRAMS[op]] + BUS_PROGRAMS_MORE.get(op, [])
-    nats = masmsym.native([{"kind": "trace_check", "source": src, "stack": [], "advice": [], "aux": True} for src in progs], "c12")
+    progs = [(p_, []) if isinstance(p_, str) else p_ for p_ in progs]
+    nats = masmsym.native([{"kind": "trace_check", "source": src, "stack": [], "advice": [str(x) for x in adv], "aux": True} for src, adv in progs], "c12")
+    progs = [src for src, _ in progs]
     for src, nat in zip(progs, nats):
         if nat.get("status") == "ok" and nat.get("bus_final") not in (None, "1"):
             V.violation(name, path, f"{name}; native trace of `{src}`: the chiplets bus column ends at {nat.get('bus_final')} instead of 1", key=f"bus:{op}")
